@@ -40,6 +40,36 @@ func (w *limitWriter) Write(p []byte) (int, error) {
 	return len(p), nil
 }
 
+// flakyWriter fails exactly one Write call (the n-th), completely, and accepts everything else;
+// capWriter rejects (completely) every write larger than its capacity.
+type flakyWriter struct {
+	failAt int
+	calls  int
+	buf    []byte
+}
+
+func (w *flakyWriter) Write(p []byte) (int, error) {
+	w.calls++
+	if w.calls == w.failAt {
+		return 0, errSink
+	}
+	w.buf = append(w.buf, p...)
+	return len(p), nil
+}
+
+type capWriter struct {
+	max int
+	buf []byte
+}
+
+func (w *capWriter) Write(p []byte) (int, error) {
+	if len(p) > w.max {
+		return 0, errSink
+	}
+	w.buf = append(w.buf, p...)
+	return len(p), nil
+}
+
 // sizeRecorder records the sizes of the writes issued to a bufio.Writer-like consumer.
 type sizeRecorder struct{ sizes []uint64 }
 
@@ -108,13 +138,16 @@ func offsetsToTry(c *ctx, total int, dense bool) []int {
 }
 
 func checkC17(c *ctx) {
-	c.Rule = "fault enumeration: (A) WriteTo into a writer that accepts exactly k bytes, for EVERY k in [0, length] of each input; (B) Persist with the process file-size limit (RLIMIT_FSIZE, SIGXFSZ ignored) set to k: every k in the first 64 bytes, the last 80 bytes (footer), around every 4096-byte flush boundary and a stride over the rest; (C) Merge with the merge buffer shrunk to 16-100 bytes and the file-size limit set to k (quick: the footer region, the head and a stride; thorough: every k); plus the no-fault runs; outcome class (error?, bytes accepted) compared with the extracted buffered-writer model (IO.v) fed with the recorded write sizes; after an error the path must not exist; after success the file is decoded by the extracted parser and compared with the spec; non-trivial = a fault offset strictly inside the output"
+	c.Rule = "fault enumeration: (A) WriteTo into a writer that accepts exactly k bytes, for EVERY k in [0, length] of each input (quick tier: images above 6000 bytes use the head / footer / flush-boundary / stride offsets), plus transient failures: exactly the n-th write call fails for every n, and destinations rejecting writes above a size; (B) Persist with the process file-size limit (RLIMIT_FSIZE, SIGXFSZ ignored) set to k: every k in the first 64 bytes, the last 80 bytes (footer), around every 4096-byte flush boundary and a stride over the rest; (C) Merge with the merge buffer shrunk to 16-100 bytes and the file-size limit set to k (quick: the footer region, the head and a stride; thorough: every k); plus the no-fault runs; outcome class (error?, bytes accepted) compared with the extracted buffered-writer model (IO.v) fed with the recorded write sizes; after an error the path must not exist; after success the file is decoded by the extracted parser and compared with the spec; non-trivial = a fault offset strictly inside the output"
 	c.Assumptions = append(c.Assumptions, "fsync/close failures are modelled but cannot be injected portably; a write beyond the limit is cut short and fails (what the kernel does under RLIMIT_FSIZE and what the failing writer does)")
 	savedBuf := zap.DefaultFileMergerBufferSize
 	defer func() { zap.DefaultFileMergerBufferSize = savedBuf }()
 	nIn := c.n(3, 40)
 	for i := 0; i < nIn; i++ {
 		o := zh.RandOpts(c.R, 3+c.R.Intn(10), "w")
+		if i%3 == 1 {
+			o.NDocs = 40 + c.R.Intn(30) // an image larger than bufio's 4096-byte buffer (large-write paths)
+		}
 		b := zh.GenBatch(c.R, o)
 		if c.R.Bool() {
 			b = zh.AddSynDocs(c.R, b, "w")
@@ -131,7 +164,8 @@ func checkC17(c *ctx) {
 		must(err)
 		// the sizes of the writes WriteTo issues to its bufio.Writer: the image, then the 8 footer fields
 		sizes := []uint64{uint64(total - 52), 8, 8, 8, 8, 8, 4, 4, 4}
-		for k := 0; k <= total+1; k++ {
+		wOffsets := offsetsToTry(c, total+1, total <= 6000 || !c.Quick)
+		for _, k := range wOffsets {
 			lw := &limitWriter{limit: k}
 			if k == total+1 {
 				lw.limit = -1
@@ -164,12 +198,49 @@ func checkC17(c *ctx) {
 				return
 			}
 		}
+		// transient destination failures: one Write call fails (and later ones succeed); or the
+		// destination rejects writes above a size.  Any failed write must surface as an error.
+		nCalls := len(rec.calls)
+		for j := 1; j <= nCalls; j++ {
+			fw := &flakyWriter{failAt: j}
+			_, werr := sb.WriteTo(fw)
+			c.Case(fmt.Sprintf("writeto-oneshot-%d-%d", i, j), true)
+			c.Count("writeto_transient_faults")
+			if werr == nil {
+				c.Violation(fmt.Sprintf("C17 WriteTo: the %d-th of %d writes to the destination failed (once; later writes succeed) but WriteTo reported success with %d of %d bytes delivered\nbatch: %s", j, nCalls, len(fw.buf), total, clip(b.Sx().String())), false)
+				return
+			}
+		}
+		for _, mx := range []int{0, 3, 51, 52, 100, 4095, 4096, total - 53, total - 1} {
+			if mx < 0 {
+				continue
+			}
+			cw := &capWriter{max: mx}
+			_, werr := sb.WriteTo(cw)
+			rejected := false
+			for _, sz := range rec.calls {
+				if int(sz) > mx {
+					rejected = true
+				}
+			}
+			c.Case(fmt.Sprintf("writeto-cap-%d-%d", i, mx), true)
+			c.Count("writeto_transient_faults")
+			if rejected && werr == nil {
+				c.Violation(fmt.Sprintf("C17 WriteTo into a destination that rejects writes larger than %d bytes reported success with %d of %d bytes delivered\nbatch: %s", mx, len(cw.buf), total, clip(b.Sx().String())), false)
+				return
+			}
+		}
 		if i == 0 {
 			c.Sample(map[string]interface{}{"operation": "WriteTo", "output_bytes": total, "fault_offsets": "0.." + fmt.Sprint(total), "write_sizes": sizes})
 		}
 		// ---------- (B) Persist under a file-size limit ----------
-		for _, k := range offsetsToTry(c, total, false) {
+		for ki, k := range offsetsToTry(c, total, false) {
 			path := zh.TmpPath("c17p")
+			// every third case: something already sits at the destination path (a retried Persist, a leftover)
+			preexisting := ki%3 == 1
+			if preexisting {
+				must(os.WriteFile(path, full[:len(full)/2], 0o600))
+			}
 			var perr error
 			withFileSizeLimit(uint64(k), func() {
 				func() {
@@ -189,7 +260,7 @@ func checkC17(c *ctx) {
 			case (perr != nil) != mErr:
 				bad = fmt.Sprintf("Persist returned error=%v, the model says error=%v", perr, mErr)
 			case perr != nil && exists(path):
-				bad = fmt.Sprintf("Persist returned an error (%v) but left a file at the path", perr)
+				bad = fmt.Sprintf("Persist returned an error (%v) but left a file at the path (a file existed there before the call: %v)", perr, preexisting)
 			case perr == nil:
 				got, _ := os.ReadFile(path)
 				if string(got) != string(full) {
